@@ -401,6 +401,29 @@ def serveAttempts (N : Net Addr Prefix) (cfg : Cfg Prefix) (c : Conn) (wire : Li
 
 end
 
+/-! ### provision-time reading of range expressions
+ip_range.go `CIDRExpressionToPrefix` (static source), reverseproxy.go `Provision` (handler
+`trusted_proxies`), ip_matchers.go `provisionCidrsZonesFromRanges`: "having a slash means it should be
+a CIDR expression, otherwise it's likely a single IP address" (then `PrefixFrom(addr, addr.BitLen())`). -/
+
+def slash : UInt8 := 47
+
+/-- net/netip's verdict on one range expression (supplied per case) -/
+structure RangeVerdict where
+  prefixOK : Bool      -- netip.ParsePrefix accepts it
+  addrOK : Bool        -- netip.ParseAddr accepts it
+deriving DecidableEq, Repr
+
+/-- does provisioning accept the expression?  The slash decides which parser is asked. -/
+def rangeAccepted (expr : Bytes) (v : RangeVerdict) : Bool :=
+  if expr.contains slash then v.prefixOK else v.addrOK
+
+/-- `for _, str := range ranges { …; if err != nil { return err } }`: provisioning succeeds iff every
+    expression is accepted -/
+def provisionAccepts : List (Bytes × RangeVerdict) → Bool
+  | [] => true
+  | (e, v) :: rest => if rangeAccepted e v then provisionAccepts rest else false
+
 /-! ### Caddyfile glue: how the options above are read
 httpcaddyfile/serveroptions.go (`trusted_proxies static …`, `trusted_proxies_strict`,
 `client_ip_headers …` of the global `servers` block), ip_range.go `StaticIPRange.UnmarshalCaddyfile`,
